@@ -325,8 +325,12 @@ func (w *world) valsetJail(i int, how string) {
 		return
 	}
 	was := w.val(i).IsJailed()
+	prot := w.protectedNow(i)
 	err := w.k.Jail(w.ctx, w.addr[i], "verif: "+how)
 	if err == nil {
+		if prot {
+			w.violate("C12:protected-jailed", fmt.Sprintf("valset.Jail (%s) jailed validator %d at height %d while it was the last active validator or held more than 25%% of the bonded unjailed power", how, i, w.ctx.BlockHeight()))
+		}
 		if was {
 			w.violate("C12:jailed-twice", fmt.Sprintf("valset.Jail succeeded for validator %d which was already jailed", i))
 		}
@@ -450,12 +454,19 @@ func (w *world) endBlock(op Op) {
 	n := len(w.addr)
 	preJ := make([]bool, n)
 	preSt := make([]int, n)
+	prePow := make([]int64, n)
+	runTotal, runCount := int64(0), 0 // bonded unjailed power / count while the sweep proceeds (accounting only)
 	for i := 0; i < n; i++ {
 		if w.live[i] {
 			v := w.val(i)
-			preJ[i], preSt[i] = v.IsJailed(), stCode(v.GetStatus())
+			preJ[i], preSt[i], prePow[i] = v.IsJailed(), stCode(v.GetStatus()), v.GetConsensusPower(sdk.DefaultPowerReduction)
+			if preSt[i] == 3 && !preJ[i] {
+				runTotal += prePow[i]
+				runCount++
+			}
 		}
 	}
+	sweptJ := make([]bool, n)
 	beforeMin, _ := w.k.PigeonRequirements(w.ctx)
 	if err := w.mod.EndBlock(w.ctx); err != nil {
 		w.t.Fatalf("valset EndBlock: %v", err)
@@ -491,6 +502,7 @@ func (w *world) endBlock(op Op) {
 		newly := !preJ[i] && j // jailed by the valset end-block (only the inactivity sweep jails there)
 		if newly {
 			w.nJail++
+			sweptJ[i] = true
 			w.noteValsetJailing(i, "inactivity sweep")
 			if uh, ok := w.unjailH[i]; ok && h-uh <= 30 {
 				w.nSoonAfterUnjail++ // observation (d): no violation of C12 as stated
@@ -527,6 +539,31 @@ func (w *world) endBlock(op Op) {
 	for i := 0; i < n; i++ {
 		if w.live[i] {
 			w.prevUnj[i] = !preJ[i]
+		}
+	}
+	// "jailing it is forbidden by the network-protection rules": the sweep visits validators in staking's
+	// iteration order (store key: length byte + operator address); with the jailings it made so far
+	// accounted for, a validator it jails must not have been the last active one nor hold more than 25 %
+	order := []int{}
+	for i := 0; i < n; i++ {
+		if sweptJ[i] {
+			order = append(order, i)
+		}
+	}
+	sort.Slice(order, func(a, b int) bool {
+		ka := append([]byte{byte(len(w.addr[order[a]]))}, w.addr[order[a]]...)
+		kb := append([]byte{byte(len(w.addr[order[b]]))}, w.addr[order[b]]...)
+		return bytes.Compare(ka, kb) < 0
+	})
+	for _, i := range order {
+		if runCount == 1 || 4*prePow[i] > runTotal {
+			w.violate("C12:protected-jailed", fmt.Sprintf(
+				"validator %d (power %d) jailed by the inactivity sweep at height %d while protected: %d active validator(s) with total power %d at its turn",
+				i, prePow[i], h, runCount, runTotal))
+		}
+		if preSt[i] == 3 {
+			runTotal -= prePow[i]
+			runCount--
 		}
 	}
 	// stored snapshot blob (new key) and presence of the legacy key
